@@ -4,6 +4,7 @@
    the word-level rank/popcount code - is covered by the sampled runs only (see lib/props.py, level_note). *)
 From Coq Require Import NArith List Bool Arith Relations.
 From DBG Require Import Spec.Dna Spec.GraphIndex Algo.BBHash Proofs.BBHashProofs.
+From Coq Require Import Lia.
 Import ListNotations.
 Local Open Scope nat_scope.
 
@@ -79,3 +80,80 @@ Proof. intros h sz H V. exact (@lookup_exact h sz H V). Qed.
 
 Print Assumptions C19_mphf_perfect.
 Print Assumptions C19_lookup_exact.
+
+(* On a graph whose node sequences are DNA of length >= K with pairwise distinct first k-mers and pairwise
+   distinct last k-mers (boomphf's no-duplicates precondition), and whose index construction terminated
+   (finish.. = Some d):  search_kmer never panics and finds a k-mer as a [side] end exactly when some node has
+   it as that end (end_index = position of that node in the list of ends, None if there is none). *)
+Theorem C19_search_kmer_exact : forall (h : nat -> nat -> key -> nat) (sz : nat -> nat),
+  (forall iter n k, h iter (sz n) k < sz n) ->
+  forall K g d kmer side, good_graph K g -> finish_serial h sz K g = Some d ->
+    length kmer = K -> wf_dna kmer ->
+    search_kmer h d kmer side = Some (end_index (ends_of K (g_seqs g) side) kmer).
+Proof. exact search_kmer_exact. Qed.
+
+(* find_link of the serially finished graph is the list-level specification (Spec/GraphIndex.v) ... *)
+Theorem C19_find_link_exact : forall (h : nat -> nat -> key -> nat) (sz : nat -> nat),
+  (forall iter n k, h iter (sz n) k < sz n) ->
+  forall K g d kmer dr, good_graph K g -> finish_serial h sz K g = Some d ->
+    length kmer = K -> wf_dna kmer ->
+    find_link h d kmer dr = Some (find_link_spec K (g_stranded g) (g_seqs g) kmer dr).
+Proof. exact find_link_exact. Qed.
+
+(* ... and so is find_link of the graph finished in parallel, under every schedule. *)
+Theorem C19_find_link_exact_parallel : forall (h : nat -> nat -> key -> nat) (sz : nat -> nat),
+  (forall iter n k, h iter (sz n) k < sz n) ->
+  forall K g d kmer dr, good_graph K g -> finish_par h sz K g (Some d) ->
+    length kmer = K -> wf_dna kmer ->
+    find_link h d kmer dr = Some (find_link_spec K (g_stranded g) (g_seqs g) kmer dr).
+Proof. exact find_link_exact_par. Qed.
+
+Print Assumptions C19_search_kmer_exact.
+Print Assumptions C19_find_link_exact.
+Print Assumptions C19_find_link_exact_parallel.
+
+(* ---- non-vacuity *)
+(* a complete schedule exists and is covered by the theorem: six keys on four slots, interleaved, thread 5
+   reading a stale collide[3] = false after it was set, then marking it again *)
+Example C19_schedule_nonvacuous :
+  let slots := [3; 1; 3; 0; 1; 3] in
+  let sched := [(0, false); (2, false); (5, false); (0, false); (2, false); (1, false); (2, false);
+                (5, true); (5, false); (5, false); (4, false); (1, false); (4, false); (4, false);
+                (3, false); (3, false); (3, false); (1, false); (1, false); (0, false)] in
+  let st := run1 slots sched (init1 6 4) in
+  clos_refl_trans _ (step1 slots) (init1 (length slots) 4) st /\ done1 slots st /\
+  pcs st = [Df; Df; Dc; Df; Dc; Dc] /\
+  sa st = [true; true; false; true] /\ sc st = [false; true; false; true].
+Proof.
+  cbv zeta. split; [apply run1_reach|]. split; [apply done1b_done1; vm_compute; reflexivity|].
+  vm_compute. auto.
+Qed.
+
+Example C19_filter_nonvacuous :
+  let slots := [3; 1; 3; 0; 1; 3] in
+  let c := [false; true; false; true] in
+  let st := run2 slots c [5; 0; 5; 1; 3; 2; 4; 4; 2; 1; 0] (init2 6 [true; true; false; true]) in
+  clos_refl_trans _ (step2 slots c) (init2 (length slots) [true; true; false; true]) st /\
+  sa2 st = [true; false; false; false] /\
+  collect [10; 11; 12; 13; 14; 15]%N (pcs2 st) = [10; 11; 12; 14; 15]%N.
+Proof. cbv zeta. split; [apply run2_reach|]. vm_compute. auto. Qed.
+
+(* a concrete graph meeting every hypothesis of the lookup theorems, with a present end, an end found through
+   the reverse complement, and an absent k-mer *)
+Example C19_graph_nonvacuous :
+  let h := fun (iter size : nat) (k : key) => (N.to_nat k * 7 + iter) mod size in
+  let sz := fun n => n + 3 in
+  let g := mkbase [[0; 1; 2; 3; 0]; [3; 3; 2; 1]; [2; 2; 2]]%N [0; 0; 0]%N [0; 0; 0]%N false in
+  (forall iter n k, h iter (sz n) k < sz n) /\ good_graph 3 g /\
+  exists d, finish_serial h sz 3 g = Some d /\
+    find_link h d [2; 3; 0]%N DLeft = Some (Some (0, DRight, false)) /\
+    find_link h d [1; 0; 0]%N DLeft = Some (Some (1, DLeft, true)) /\
+    find_link h d [0; 0; 0]%N DLeft = Some None.
+Proof.
+  cbv zeta. split; [intros; apply Nat.mod_upper_bound; lia|]. split.
+  - unfold good_graph. split; [|split].
+    + repeat constructor; cbn; lia.
+    + vm_compute. repeat (constructor; [cbn; intuition discriminate|]). constructor.
+    + vm_compute. repeat (constructor; [cbn; intuition discriminate|]). constructor.
+  - eexists. split; [vm_compute; reflexivity|]. vm_compute. auto.
+Qed.
